@@ -147,3 +147,14 @@ Proof.
   pose proof (shutdown_case_exits l i c (stops_in ls l E Hl) Hn Hc) as Hx.
   unfold iter in Hx. rewrite Hn, Hlv in Hx. discriminate.
 Qed.
+
+(* a loop none of whose cases leaves it never stops, whatever its select picks (this is the shape
+   of a loop WITHOUT a shutdown case such as Hub.run: it parks in its select, it does not exit) *)
+Lemma never_exits l :
+  forallb (fun c => negb (leaves (tm c))) (cases l) = true -> forall sched, run l sched = Running.
+Proof.
+  intros H sched. induction sched as [|i r IH]; cbn [run]; [reflexivity|].
+  unfold iter. destruct (nth_error (cases l) i) as [c|] eqn:En; [|exact IH].
+  rewrite forallb_forall in H. specialize (H c (nth_error_In _ _ En)).
+  destruct (leaves (tm c)); [discriminate|exact IH].
+Qed.
